@@ -430,18 +430,25 @@ static void mode_hist(vh::Trace& tr, long runs, int maxlen, int stage, vh::Rng& 
 // histories of ONE LmToProjData object: execution, then one setting changed through its public setter, set_up() and
 // process_data() again, and so on; every execution must give the histogram of its CURRENT settings
 static void mode_reuse(vh::Trace& tr, long runs, int maxlen, vh::Rng& rng) {
+  static const char* FIRST[9] = { "storeD", "storeP", "segIM", "tofIM", "input", "template", "nStore", "frames", "prefix" };
   for (long run = 0; run < runs; ++run) {
+    // the first change of the history goes through the setters in turn; the base settings are chosen to allow it
+    std::string first = FIRST[run % 9];
+    if (first == "prefix" && g_scratch.empty()) first = "storeD";
+    const bool files = first == "prefix";
     Geo g = random_geo(rng, 0, true);
+    // (file output: not for TOF scanners whose TOF mashing leaves a single TOF bin, see mode_hist)
+    while (files && g.maxT != 0 && (g.maxT / g.tofMash) <= 1) g = random_geo(rng, 0, true);
     shared_ptr<Scanner> sc = vh::make_scanner(g.N, g.R, g.maxT);
     shared_ptr<ProjDataInfo> templ = make_template(sc, g);
     Settings st;
     st.cls = "reuse";
     st.fresh = true;
-    const int base = (int)(run % 3);           // 0: frames, 1: no frame definitions, 2: num_events_to_store
+    // 0: frames, 1: no frame definitions, 2: num_events_to_store
+    const int base = first == "nStore" ? rng.range(1, 2) : first == "frames" ? rng.range(0, 1) : (int)(rng.next() % 3);
     std::vector<vh::LmRec> recs = random_stream(rng, g, rng.range(6, maxlen), true, false, true);
     if (base == 0) st.frames = random_frames(rng, 3, last_mark(recs));
     if (base == 2) st.nStore = rng.range(1, 6);
-    const bool files = !g_scratch.empty() && run % 3 == 1 && (g.maxT == 0 || templ->get_num_tof_poss() > 1);
     if (files) st.file_prefix = g_scratch + "/c14reuse" + std::to_string(run) + "a";
     st.segIM = rng.coin() ? -1 : 1; st.tofIM = rng.coin() ? -1 : 1;
     Session ses;
@@ -452,8 +459,7 @@ static void mode_reuse(vh::Trace& tr, long runs, int maxlen, vh::Rng& rng) {
     if (files) kinds.push_back("prefix");
     const int steps = rng.range(3, 5);
     for (int k = 0; k < steps; ++k) {
-      static long cyc = 0;
-      const std::string kind = k == 0 ? kinds[(size_t)(cyc++ % (long)kinds.size())] : rng.pick(kinds);
+      const std::string kind = k == 0 ? first : rng.pick(kinds);
       Settings nx = st;
       Geo ng = g;
       std::vector<vh::LmRec> nrecs = recs;
@@ -462,9 +468,9 @@ static void mode_reuse(vh::Trace& tr, long runs, int maxlen, vh::Rng& rng) {
       else if (kind == "segIM") nx.segIM = st.segIM == 1 ? 2 : 1;
       else if (kind == "tofIM") nx.tofIM = st.tofIM == 1 ? 2 : 1;
       else if (kind == "input") nrecs = random_stream(rng, g, rng.range(6, maxlen), true, false, true);
-      else if (kind == "template") { do { ng = random_geo(rng, 0, true); } while (ng.N != g.N || ng.R != g.R || ng.maxT != g.maxT || same_geo(ng, g)); }
+      else if (kind == "template") { do { ng = random_geo(rng, 0, true); } while (ng.N != g.N || ng.R != g.R || ng.maxT != g.maxT || same_geo(ng, g) || (files && ng.maxT != 0 && ng.maxT / ng.tofMash <= 1)); }
       else if (kind == "nStore") { if (!st.frames.empty()) continue; nx.nStore = st.nStore == 0 ? rng.range(1, 6) : (rng.coin() ? 0 : st.nStore + rng.range(1, 3)); }
-      else if (kind == "frames") { if (st.nStore != 0) continue; nx.frames = st.frames.empty() ? random_frames(rng, 3, last_mark(recs)) : (rng.coin() ? std::vector<std::pair<long, long>>() : random_frames(rng, 3, last_mark(recs))); if (nx.frames == st.frames) continue; }
+      else if (kind == "frames") { if (st.nStore != 0) continue; nx.frames = st.frames.empty() ? random_frames(rng, 3, last_mark(recs)) : (rng.coin() ? std::vector<std::pair<long, long>>() : random_frames(rng, 3, last_mark(recs))); if (nx.frames == st.frames) nx.frames = st.frames.empty() ? std::vector<std::pair<long, long>>{ { 0, 250 } } : std::vector<std::pair<long, long>>(); }
       else if (kind == "prefix") nx.file_prefix = g_scratch + "/c14reuse" + std::to_string(run) + (char)('b' + k);
       ses.changed = kind;
       run_hist(tr, ng, nx, nrecs, false, &ses);
@@ -847,7 +853,7 @@ static void run_gradx(vh::Trace& tr, vh::Rng& rng, int stage) {
           n = choose_subsets(rng, templ, image, [&] { return shared_ptr<ProjectorByBinPair>(vh::make_explicit_projector_pair(data)); });
         if (n != cur.numSubsets) { cur.numSubsets = n; changed = "numSubsets"; }
       } else if (what == 1) { cur.maxSegProc = cur.maxSegProc == -1 ? 0 : -1; changed = "maxSegProc"; }
-      else if (what == 2) { const int f = rng.range(0, dur < 125 ? 1 : dur < 500 ? 2 : 3); if (f != cur.frame_num) { cur.frame_num = f; changed = "frame"; } }
+      else if (what == 2) { const int nf = dur < 125 ? 1 : dur < 500 ? 2 : 3; cur.frame_num = (cur.frame_num + 1 + rng.range(0, nf - 1)) % (nf + 1); changed = "frame"; }
       if (changed.empty()) { cur.cm = random_cache(rng, recs); changed = "cache"; }
     }
     const int nsub = cur.numSubsets, frame_num = cur.frame_num;
